@@ -90,15 +90,22 @@ KF_LineFitPerpEnd(env, q, v, got) == LET t == TrueTan(env, q, v) IN
    /\ env.E[q].straight
    /\ ~(Close(got[1], t[1], TolTangent) /\ Close(got[2], t[2], TolTangent))
 \* known finding: the default ("dlite") circle fit loses accuracy when the tissue lies more than ~500 tissue
-\* sizes away from the origin (measured on arcs: <= 1e-9 up to 3000 sizes, 1e-7 at 5000, several 1e-3 up to 0.7 at 10^4;
-\* the threshold was 500 until a seeded change that loses accuracy a thousand times earlier hid behind it)
-KF_FarFromOrigin(env, fit) == fit = "dlite" /\ env.offset_sizes > 4000
+\* sizes away from the origin. Measured over 5000 arc ends (findings/c02_far_from_origin probe): from about 500 tissue sizes
+\* on, sporadic tangent errors of up to 3.5e-2 (growing with the offset measured in interface lengths, so larger tissues are
+\* hit earlier); beyond 4000 tissue sizes several 1e-3 up to 0.7. The case-level matcher (tension checks) is the onset;
+\* at coefficient level the excuse is bounded in magnitude up to 4000 sizes, so a change that loses accuracy much earlier or
+\* much more does not hide behind it.
+KF_FarFromOrigin(env, fit) == fit = "dlite" /\ env.offset_sizes > 500
+KF_FarFromOriginCoef(env, fit, got, want) ==
+  /\ KF_FarFromOrigin(env, fit)
+  /\ \/ env.offset_sizes > 4000
+     \/ Abs(got[1] - want[1]) <= 80000 /\ Abs(got[2] - want[2]) <= 80000
 CoefKF(m, f, env, fm, ki, fit) ==
   LET q == PhysOf(env, f.ifaces[ki[2]])
       row == fm.rows[ki[1]] IN
   IF q = 0 THEN "" ELSE IF KF_TwoPointIfc(env, q) THEN "KF_TwoPointInterface"
   ELSE IF KF_SignForcedEnd(env, q, row.v) THEN "KF_SignForced"
-  ELSE IF KF_FarFromOrigin(env, fit) THEN "KF_FarFromOrigin"
+  ELSE IF KF_FarFromOriginCoef(env, fit, Entry(row, ColOf(fm, ki[2])), TrueTan(env, q, row.v)) THEN "KF_FarFromOrigin"
   ELSE IF KF_LineFitPerpEnd(env, q, row.v, Entry(row, ColOf(fm, ki[2]))) THEN "KF_LineFitPerp" ELSE ""
 
 ZerosOK(m, f, fm) == \A k \in DOMAIN fm.rows : LET row == fm.rows[k] IN
